@@ -436,6 +436,28 @@ func runC05(c *h.Ctx) {
 			runMatrixCase(c, "$x.timestamp_tz().date() != $y.timestamp().time_tz()", vars, vt)
 		}
 	}
+	// (a4) every prefix and every suffix of well-formed datetime texts, and a
+	// few with their separators doubled or dangling, through every datetime method
+	{
+		var cut []string
+		for _, full := range []string{"2024-04-29T10:00:00.123456789+05:30", "12:34:56.5-08", "2024-04-29 10:00:00Z", "23:59:59+00:00:30"} {
+			for k := 0; k <= len(full); k++ {
+				cut = append(cut, full[:k], full[k:])
+			}
+		}
+		cut = append(cut, "a:-", ":+", ":", "12:00:00+:", "12:00:00+1:", "12:00:00 +", "12:00:00Z+", "12:00:00++01", "12::00", "--", "2024--01", "T", "TZ", "+:", "-:-", "12:00:00.", "12:00:00.+01", "2024-04-29T", "2024-04-29T+01")
+		for i, x := range cut {
+			if !c.Mine(i) {
+				continue
+			}
+			vars := map[string]any{"x": x}
+			vt := fmt.Sprintf(`{"x":%q}`, x)
+			for _, m := range c05Methods[16:] {
+				runMatrixCase(c, "$x."+m, vars, vt)
+			}
+			runMatrixCase(c, "$x.datetime() == $x.datetime()", vars, vt)
+		}
+	}
 	c.SetExhaustive(fmt.Sprintf("%d value kinds squared x %d binary forms + unary/method/accessor forms x lax/strict x silent x WithTZ x 5 entry points", len(kinds), len(c05Binary)+3))
 	c.Sample("matrix", map[string]any{"path": "$x.datetime() == $y", "vars": `{"x":"2023-08-15","y":1e400 (json.Number)}`})
 
